@@ -126,7 +126,8 @@ Qed.
 (* (type, tag) as given, and no children yet: None, or the empty list of a fresh inline token *)
 Definition no_url_attrs (t : token) : Prop :=
   (forall k v, In (k, AStr v) (tattrs t) -> k = [104; 114; 101; 102] \/ k = [115; 114; 99] -> False)
-  /\ (forall n, In ([99; 108; 97; 115; 115], AInt n) (tattrs t) -> False).     (* and no integer "class" *)
+  /\ (forall n, In ([99; 108; 97; 115; 115], AInt n) (tattrs t) -> False)     (* and no integer class *)
+  /\ Forall (fun kv => fst kv = s_start \/ fst kv = s_style) (tattrs t).     (* attribute names: start (ordered lists), style (cells) *)
 Definition is (ty tag : str) (t : token) : Prop :=
   ttype t = ty /\ ttag t = tag /\ (tchildren t = None \/ tchildren t = Some []) /\ no_url_attrs t.
 
@@ -165,7 +166,7 @@ Definition P_rule (name : str) (t : token) : Prop :=
 Definition P_all (t : token) : Prop := exists n, In n (c_rules cfg) /\ P_rule n t.
 
 Lemma is_tt ty tag : tt_only (is ty tag).
-Proof. intros t t' A B C D0 (D & E & G & N1 & N2). unfold is, no_url_attrs. rewrite A, B, C, D0. repeat split; assumption. Qed.
+Proof. intros t t' A B C D0 (D & E & G & N1 & N2 & N3). unfold is, no_url_attrs. rewrite A, B, C, D0. repeat split; assumption. Qed.
 
 Ltac tt_tac := intros t t' A B C D H; unfold is, no_url_attrs in *; rewrite ?A, ?B, ?C, ?D; exact H.
 
@@ -212,7 +213,8 @@ Ltac noattr :=
   (split;
    [ intros k v I K; cbn in I;
      repeat (destruct I as [I|I]; [first [discriminate I | injection I as <- _; destruct K as [K|K]; discriminate K]|]); exact I
-   | intros k I; cbn in I; repeat (destruct I as [I|I]; [discriminate I|]); exact I ]).
+   | split; [ intros k I; cbn in I; repeat (destruct I as [I|I]; [discriminate I|]); exact I
+            | cbn; repeat constructor; first [left; reflexivity | right; reflexivity] ] ]).
 Ltac isgoal := unfold is, map_tok, cell_attrs;
   repeat match goal with |- context [if ?c then _ else _] => destruct c end;
   (split; [reflexivity | (split; [reflexivity | (split; [first [left; reflexivity | right; reflexivity] | noattr])])]).
